@@ -25,6 +25,7 @@ import XotModel.Lemmas.FspecPairRemove
 import XotModel.Lemmas.FspecPairAppend4
 import XotModel.Lemmas.FspecPairAfter3
 import XotModel.Lemmas.FspecPairBefore4
+import XotModel.Lemmas.FspecPairString
 import XotModel.Lemmas.FcreationSpec
 
 namespace XotModel.Props
@@ -620,10 +621,14 @@ example :
   `specDetachP`: the two neighbours a leaving node separated, the earlier surviving; the moved text
   node with its new left neighbour if that is text, else with its new right one, the neighbour
   surviving).  Below it is proved for EVERY forest with `Forest.Inv` — no `Forest.Normal` — for
-  `remove`, `detach`, `prepend`, `insert_after`, and for `append` / `insert_before` outside ONE
-  corner (`Spec.selfMerge`), in which the real code loses character data: a recorded finding
-  (`C05:move-changes-character-data`), with the deviation proved (`C05_selfMerge_*`, closed
-  witness).  `element_unwrap`, `element_wrap` and `replace` are proved under `Forest.Normal` only. -/
+  `remove`, `detach` and all four moves.  In ONE corner (`Spec.selfMerge`: the moved text node
+  stands between two text nodes and, once those are merged, already occupies the requested place)
+  xot used to lose character data (finding `C05:move-changes-character-data`): the helper
+  `add_consolidate_text_nodes` took the node itself for its neighbour and merged it "into itself".
+  Since xot eccbbb7 it takes the node's own sibling there, and `append` / `insert_before` are the
+  specification in that corner too (`C05_pair_append`, `C05_pair_insertBefore`,
+  `C05_selfMerge_append`, `C05_selfMerge_insertBefore`, closed examples below).
+  `element_unwrap`, `element_wrap` and `replace` are proved under `Forest.Normal` only. -/
 
 theorem C05_pair_remove {f : Forest} {n : Nat} (inv : f.Inv) (live : f.isLive n = true) :
     (f.remove n).1 = specRemoveP n f :=
@@ -641,35 +646,39 @@ theorem C05_pair_insertAfter {f : Forest} {r c : Nat} (inv : f.Inv) (hok : (f.in
     (f.insertAfter r c).1 = specMoveP (.after r) c f :=
   insertAfter_pair inv hok
 
-/-- The full-strength statements for `append` and `insert_before` (false of the code, see below). -/
+/-- `append` against the pair reading, full strength (every forest with the invariant, every
+    geometry, the corner `selfMerge` included). -/
+theorem C05_pair_append {f : Forest} {p c : Nat} (inv : f.Inv) (hok : (f.append p c).2 = .ok) :
+    (f.append p c).1 = specMoveP (.lastChildOf p) c f :=
+  append_pair inv hok
+
+/-- `insert_before` against the pair reading, full strength. -/
+theorem C05_pair_insertBefore {f : Forest} {r c : Nat} (inv : f.Inv)
+    (hok : (f.insertBefore r c).2 = .ok) :
+    (f.insertBefore r c).1 = specMoveP (.before r) c f :=
+  insertBefore_pair inv hok
+
+/-- The full-strength statements, as propositions (they used to be false of the code). -/
 def C05_pair_appendStatement : Prop :=
   ∀ (f : Forest) (p c : Nat), f.Inv → (f.append p c).2 = .ok → (f.append p c).1 = specMoveP (.lastChildOf p) c f
 def C05_pair_insertBeforeStatement : Prop :=
   ∀ (f : Forest) (r c : Nat), f.Inv → (f.insertBefore r c).2 = .ok →
     (f.insertBefore r c).1 = specMoveP (.before r) c f
 
-/-- `append` / `insert_before` outside the corner `selfMerge` (a decidable condition on the forest
-    before the call: the moved TEXT node stands between two text nodes and, once those are merged,
-    already occupies the requested place). -/
-theorem C05_pair_append_partial {f : Forest} {p c : Nat} (inv : f.Inv) (hok : (f.append p c).2 = .ok)
-    (hsm : selfMerge f (.lastChildOf p) c = false) :
-    (f.append p c).1 = specMoveP (.lastChildOf p) c f :=
-  append_pair inv hok hsm
+theorem C05_pair_statements_true : C05_pair_appendStatement ∧ C05_pair_insertBeforeStatement :=
+  ⟨fun _ _ _ inv hok => append_pair inv hok, fun _ _ _ inv hok => insertBefore_pair inv hok⟩
 
-theorem C05_pair_insertBefore_partial {f : Forest} {r c : Nat} (inv : f.Inv)
-    (hok : (f.insertBefore r c).2 = .ok) (hsm : selfMerge f (.before r) c = false) :
-    (f.insertBefore r c).1 = specMoveP (.before r) c f :=
-  insertBefore_pair inv hok hsm
-
-/-- In the corner the call succeeds and DESTROYS the moved text node (its data is lost). -/
+/-- In the corner `selfMerge` (the moved TEXT node stands between two text nodes and, once those
+    are merged, already occupies the requested place) the call succeeds and is the specification:
+    the node is merged into the text node its two neighbours have become (xot eccbbb7). -/
 theorem C05_selfMerge_append {f : Forest} {p c : Nat} (inv : f.Inv)
     (h : selfMerge f (.lastChildOf p) c = true) :
-    (f.append p c).2 = .ok ∧ (f.append p c).1.isLive c = false :=
+    (f.append p c).2 = .ok ∧ (f.append p c).1 = specMoveP (.lastChildOf p) c f :=
   append_selfMerge inv h
 
 theorem C05_selfMerge_insertBefore {f : Forest} {r c : Nat} (inv : f.Inv)
     (h : selfMerge f (.before r) c = true) :
-    (f.insertBefore r c).2 = .ok ∧ (f.insertBefore r c).1.isLive c = false :=
+    (f.insertBefore r c).2 = .ok ∧ (f.insertBefore r c).1 = specMoveP (.before r) c f :=
   insertBefore_selfMerge inv h
 
 /-- Non-vacuity: a forest with adjacent text nodes on which the pair reading differs from the
@@ -694,40 +703,70 @@ def selfMergeWitness : Forest :=
   { roots := [.node 0 (.element 2) [.node 1 (.text ['a']) [], .node 2 (.text ['b']) [],
       .node 3 (.text ['c']) [], .node 4 (.text ['d']) []]], next := 5, consolidation := true, everOff := true }
 
-/-- `insert_before(d, b)`: `a` and `c` are merged, `b` then already stands before `d`, is taken for
-    its own text neighbour, "merged into itself" and destroyed — the data `b` is lost.  The pair
-    reading gives `acb`, `d`.  Likewise `append(e, b)` on the children `a b c`. -/
-theorem C05_selfmerge_loses_text_witness :
+/-- `insert_before(d, b)`: `a` and `c` are merged, `b` then already stands before `d`; the helper
+    takes `b`'s own previous sibling `ac` and merges `b` into it: `acb`, `d` — the pair reading; no
+    character is lost (before xot eccbbb7 the result was `ac`, `d`).  Likewise `append(e, b)` on
+    the children `a b c` gives `acb`. -/
+theorem C05_selfmerge_keeps_text_witness :
     selfMergeWitness.inv = true ∧
     (selfMergeWitness.insertBefore 4 2).2 = .ok ∧
     (selfMergeWitness.insertBefore 4 2).1.content =
-      [.node (.element 2) [.node (.text ['a', 'c']) [], .node (.text ['d']) []]] ∧
-    (selfMergeWitness.insertBefore 4 2).1.isLive 2 = false ∧
-    (specMoveP (.before 4) 2 selfMergeWitness).content =
       [.node (.element 2) [.node (.text ['a', 'c', 'b']) [], .node (.text ['d']) []]] ∧
+    (selfMergeWitness.insertBefore 4 2).1.isLive 2 = false ∧
+    (selfMergeWitness.insertBefore 4 2).1 = specMoveP (.before 4) 2 selfMergeWitness ∧
     selfMerge selfMergeWitness (.before 4) 2 = true ∧
     (let g : Forest := { selfMergeWitness with roots := [.node 0 (.element 2) [.node 1 (.text ['a']) [],
         .node 2 (.text ['b']) [], .node 3 (.text ['c']) []]] }
-     (g.append 0 2).2 = .ok ∧ (g.append 0 2).1.content = [.node (.element 2) [.node (.text ['a', 'c']) []]] ∧
+     (g.append 0 2).2 = .ok ∧
+     (g.append 0 2).1.content = [.node (.element 2) [.node (.text ['a', 'c', 'b']) []]] ∧
+     (g.append 0 2).1 = specMoveP (.lastChildOf 0) 2 g ∧
      selfMerge g (.lastChildOf 0) 2 = true) := by
   decide
 
-/-- `<e>abc</e>` as three adjacent text nodes. -/
-def selfMergeWitness2 : Forest :=
-  { roots := [.node 0 (.element 2) [.node 1 (.text ['a']) [], .node 2 (.text ['b']) [],
-      .node 3 (.text ['c']) []]], next := 4, consolidation := true, everOff := true }
+/-- **No move loses (or invents) character data** — for EVERY forest with the invariant, adjacent
+    text nodes under consolidation allowed (no `Forest.Normal`), every geometry, every successful
+    `append` / `prepend` / `insert_after` / `insert_before`: afterwards the non-text nodes are the
+    same, in the same document order, and each of them — every element, every document node, in
+    particular every ancestor of the place left and of the place of arrival, and every root — has
+    exactly the string value the plain ordered-tree move gives it (`plainMove`: cut the subtree,
+    graft it, merge nothing).  Whatever consolidation does to the text NODES (which of two merged
+    nodes survives, the pair merged at the old place, the node merged at the new place, the corner
+    `selfMerge`), the character DATA is where the move puts it.  (A parentless text node is not in
+    `strValues`; it is untouched unless it is the moved node, whose data then is part of the string
+    value of its new parent.)  Before xot eccbbb7 this was false in the corner `selfMerge`. -/
+theorem C05_move_keeps_character_data {f : Forest} (inv : f.Inv) :
+    (∀ p c, (f.append p c).2 = .ok →
+      (f.append p c).1.strValues = (plainMove (.lastChildOf p) c f).strValues) ∧
+    (∀ p c, (f.prepend p c).2 = .ok →
+      (f.prepend p c).1.strValues = (plainMove (.firstNormalChildOf p) c f).strValues) ∧
+    (∀ r c, (f.insertAfter r c).2 = .ok →
+      (f.insertAfter r c).1.strValues = (plainMove (.after r) c f).strValues) ∧
+    (∀ r c, (f.insertBefore r c).2 = .ok →
+      (f.insertBefore r c).1.strValues = (plainMove (.before r) c f).strValues) :=
+  ⟨fun _ _ hok => append_keeps_strValues inv hok, fun _ _ hok => prepend_keeps_strValues inv hok,
+   fun _ _ hok => insertAfter_keeps_strValues inv hok, fun _ _ hok => insertBefore_keeps_strValues inv hok⟩
 
-/-- The full-strength statements are false of the code. -/
-theorem C05_pair_statements_false : ¬ C05_pair_appendStatement ∧ ¬ C05_pair_insertBeforeStatement := by
-  constructor
-  · intro h
-    have := h selfMergeWitness2 0 2 ((Forest.inv_iff _).1 (by decide)) (by decide)
-    revert this
-    decide
-  · intro h
-    have := h selfMergeWitness 4 2 ((Forest.inv_iff _).1 (by decide)) (by decide)
-    revert this
-    decide
+/-- The pair reading itself keeps the character data (what the four parts above are proved from). -/
+theorem C05_pair_spec_keeps_character_data {f : Forest} {dest : Dest} {c : Nat} {t : HTree} {q : Nat}
+    {vq : Value} {Lq : List HTree} (inv : f.Inv) (hgc : f.get? c = some t) (sq : SiteAt f q vq Lq)
+    (hqt : q ∉ HTree.handles t) (hvq : vq.isText = false) (hsite : dest.site f = some q) :
+    (specMoveP dest c f).strValues = (plainMove dest c f).strValues :=
+  specMoveP_strValues inv hgc sq hqt hvq hsite
+
+/-- Non-vacuity, in the corner: `<e>abcd</e>` as four text nodes, `insert_before(d, b)`,
+    `insert_after(c, b)`, `append(e, c)` (with `d` last: `b` and `d` merged, `c` last already),
+    `prepend(e, b)`: the element's string value is that of the plain move each time. -/
+example :
+    selfMergeWitness.inv = true ∧
+    (selfMergeWitness.insertBefore 4 2).2 = .ok ∧
+    (selfMergeWitness.insertBefore 4 2).1.strValues = [(0, ['a', 'c', 'b', 'd'])] ∧
+    (plainMove (.before 4) 2 selfMergeWitness).strValues = [(0, ['a', 'c', 'b', 'd'])] ∧
+    (selfMergeWitness.insertAfter 3 2).1.strValues = [(0, ['a', 'c', 'b', 'd'])] ∧
+    (selfMergeWitness.append 0 3).2 = .ok ∧ selfMerge selfMergeWitness (.lastChildOf 0) 3 = true ∧
+    (selfMergeWitness.append 0 3).1.strValues = [(0, ['a', 'b', 'd', 'c'])] ∧
+    (plainMove (.lastChildOf 0) 3 selfMergeWitness).strValues = [(0, ['a', 'b', 'd', 'c'])] ∧
+    (selfMergeWitness.prepend 0 2).1.strValues = [(0, ['b', 'a', 'c', 'd'])] := by
+  decide
 
 /-! ### The convenience calls: a node creation followed by a move (`Model/Fcreation.lean`)
 
@@ -750,8 +789,7 @@ theorem C05_new_document_with_element {f : Forest} {n : Nat} (inv : f.Inv) (norm
     simp only [Bool.not_true, Bool.false_eq_true, if_false] at hok ⊢
     exact ⟨C05_append_exact (Fcreation.newNode_inv inv _) (Fcreation.newNode_normal norm _) hok, rfl, trivial⟩
 
-/-- … without `Forest.Normal`, against the PAIR reading (the corner `selfMerge` cannot arise:
-    nothing has the fresh document node as its parent). -/
+/-- … without `Forest.Normal`, against the PAIR reading. -/
 theorem C05_pair_new_document_with_element {f : Forest} {n : Nat} (inv : f.Inv)
     (hok : (f.newDocumentWithElement n).2.1 = .ok) :
     (f.newDocumentWithElement n).1 = specMoveP (.lastChildOf f.next) n f.newDocument.1 := by
@@ -761,7 +799,7 @@ theorem C05_pair_new_document_with_element {f : Forest} {n : Nat} (inv : f.Inv)
   | true =>
     rw [he] at hok
     simp only [Bool.not_true, Bool.false_eq_true, if_false] at hok ⊢
-    exact C05_pair_append_partial (Fcreation.newNode_inv inv _) hok (Fcreation.selfMerge_under_new inv _ n)
+    exact C05_pair_append (Fcreation.newNode_inv inv _) hok
 
 /-- `append_text` / `append_element` / `append_comment` / `append_processing_instruction`, by the
     value `v` of the node they create (handle `f.next`). -/
@@ -772,7 +810,7 @@ theorem C05_append_new {f : Forest} {p : Nat} {v : Value} (inv : f.Inv) (norm : 
 
 theorem C05_pair_append_new {f : Forest} {p : Nat} {v : Value} (inv : f.Inv) (hok : (f.appendNew p v).2 = .ok) :
     (f.appendNew p v).1 = specMoveP (.lastChildOf p) f.next (f.newNode v).1 :=
-  C05_pair_append_partial (Fcreation.newNode_inv inv v) hok (Fcreation.selfMerge_new inv v p)
+  C05_pair_append (Fcreation.newNode_inv inv v) hok
 
 theorem C05_append_text {f : Forest} {p : Nat} {s : Str} (inv : f.Inv) (norm : f.Normal)
     (hok : (f.appendText p s).2 = .ok) :
